@@ -30,6 +30,9 @@ func symMarshal(i interface{}) ([]byte, error) {
 		b := make([]byte, 8)
 		verifPutU64(b, v)
 		return b, nil
+	case []byte:
+		// slice-typed (uncomparable) values: the bytes themselves (callers keep them non-empty)
+		return v, nil
 	case Node:
 		// v1marshaler: the user marshaler encodes the bare Node
 		b := []byte{'N', byte(len(v.Key))}
@@ -153,6 +156,14 @@ func symUnmarshal(b []byte, out interface{}) error {
 		return nil
 	}
 	return errSymCodec
+}
+
+func bytesCodecUnmarshal(b []byte, out interface{}) error {
+	if p, ok := out.(*[]byte); ok {
+		*p = append([]byte(nil), b...)
+		return nil
+	}
+	return symUnmarshal(b, out)
 }
 
 func symConfig(store Persist, cache NodeCache) *RemoteConfig {
